@@ -323,6 +323,11 @@ func ParseCurrency(s string) (Currency, error) {
 	if unit == "" || unit == "H" {
 		return parseHastings(n)
 	}
+	// exponents are not part of the format; big.Rat would expand them (e.g.
+	// "1e1000000") at a cost unrelated to the size of the input
+	if strings.ContainsAny(n, "eEpP") {
+		return ZeroCurrency, errors.New("not a number")
+	}
 	// parse numeric part as a big.Rat
 	r, ok := new(big.Rat).SetString(n)
 	if !ok {
